@@ -26,8 +26,12 @@ for d in sorted(glob.glob(os.path.join(ROOT, "seeded", "C*"))):
     if os.path.exists(p):
         readme = open(p).read()
     title = ""
+    first = next((l.strip() for l in readme.splitlines() if l.strip()), "")
     m = re.search(r"^#\s*(.+)$", readme, re.M)
-    if m:
+    if first and not first.startswith("#"):
+        # round 7 onwards: the first line is the one-sentence title, without a heading mark
+        title = re.sub(r"^(\*\*)?Title:?(\*\*)?:?\s*", "", first).strip()
+    elif m:
         title = m.group(1).strip()
     needs = ""
     m = re.search(r"(?is)^#+\s*(what it needs[^\n]*|needs[^\n]*|trigger[^\n]*|manifest[^\n]*)\n(.+?)(?=^#|\Z)", readme, re.M)
